@@ -212,3 +212,45 @@ def pair_quoting(ctx: Ctx, quoter_roles):
                                 problems.append(f"{show(f)[:50]} is quoted twice")
             ctx.ob(rule, q, "serialised pairs", not problems, "; ".join(problems), where(fi, node),
                    sample="'&'.join(f'{Q(k)}={Q(v)}') with the query-part quoter")
+
+
+def qv4(ctx: Ctx):
+    """In the mapping serialiser a value is expanded into repeated keys only when it is a list or tuple (and never a
+    str): a wider test (Sequence, Iterable) would split str subclasses into characters and accept bytes."""
+    model = ctx.model
+    rule = "QV4"
+    ctx.rule(rule, floor=1, what="only list/tuple values of a mapping are expanded")
+    fi = model.func("_query.get_str_query_from_sequence_iterable")
+    r = analyze(model, fi)
+    n = 0
+    seen = set()
+    for e in r.by_kind("call"):
+        if not e.args:
+            continue
+        for t in walk(e.args[0]):
+            # an element drawn from the *value* of a pair: elem(<value>) where <value> is item 1 of elem(items)
+            if t[0] == "elem" and t[1][0] == "item" and t[1][2] == 1 and t[1][1][0] == "elem":
+                val = t[1]
+                if val in seen:
+                    continue
+                seen.add(val)
+                n += 1
+                ctx.instance(rule)
+                oks = []
+                for f in alternatives(e.state.facts, val):
+                    narrow = False
+                    for k, fv in f.items():
+                        if fv and k[0] == "call" and k[1] == ("builtin", "isinstance") and k[2][0] == val:
+                            ty = k[2][1]
+                            names = [x[1] for x in (ty[1] if ty[0] == "tuple" else (ty,)) if x[0] == "builtin"]
+                            others = [x for x in (ty[1] if ty[0] == "tuple" else (ty,)) if x[0] != "builtin"]
+                            if names and not others and set(names) <= {"list", "tuple"}:
+                                narrow = True
+                    notstr = truth(("cmp", "Is", ("call", ("builtin", "type"), (val,), ()), ("builtin", "str")), f) is False
+                    oks.append(narrow and notstr)
+                ctx.ob(rule, fi.qual, f"expansion of {show(val)}", all(oks),
+                       "a mapping value is iterated into repeated keys without being known to be a list or tuple (and not a "
+                       "str): str subclasses would be split into characters and bytes accepted", where(fi, e.node),
+                       sample="isinstance(value, (list, tuple)) and type(value) is not str")
+    if not n:
+        raise AnalysisError("QV4: no value expansion found in the mapping serialiser (anchor vanished)")
